@@ -320,6 +320,9 @@ def mutate(rng, spec, asg, pool, slots=None, typed_pair=False, fixed=0, near=Fal
             pass
         if near and isinstance(old, float) and rng.random() < 0.7:
             opts = [old + d for d in (1e-4, -1e-4, 0.004, -0.004, 0.04, -0.04, 0.4, 4.0, 40.0)]
+            if abs(old) >= 2.0 ** 52:
+                import math as _m
+                opts = [old + k * _m.ulp(old) for k in (1, 2, 3, -1, 40)] + [old * 1.0003, old * 1.3]
         if near and isinstance(old, (_fr.Fraction, _dc.Decimal)) and rng.random() < 0.8:
             # a nearby non-float number: must stay a different argument whatever the tolerance
             opts = [old + type(old)(1) / type(old)(d) for d in (30, 300, 7)]
@@ -443,7 +446,9 @@ import decimal as _dc
 ROUND_SCALARS = [1.25, 1.35, 2.5, 0.5, 1.5, -0.5, 1.0049, 1.005, 123.456, 149.9, 150.0, 151.0,
                  0.30000000000000004, 0.3, 1e-09, 0.0, 1.26, 1.24, 2.51, 7, -3, 'abc', 'a', b'xy', None,
                  # numbers that are not floats: never to be rounded
-                 _fr.Fraction(1, 3), _fr.Fraction(63, 50), _dc.Decimal('1.26'), True, 10 ** 20 + 1, 1.5 + 0.26j]
+                 _fr.Fraction(1, 3), _fr.Fraction(63, 50), _dc.Decimal('1.26'), True, 10 ** 20 + 1, 1.5 + 0.26j,
+                 # floats beyond 2**52 (no fractional part left, but negative tolerances still round them)
+                 4503599627370497.0, 9007199254740994.0, 1.2340e30]
 ROUND_NESTED = [[1.26, 'a'], (1.26, [2.51, 3]), {'p': 1.26}, {'p': [1.24, {'q': 2.51}]},
                 [1.24, 'a'], (1.24, [2.49, 3]), {'p': 1.24}, [[1.26]], [[1.24]], (7, 'abc'),
                 (1.26, 'x'), frozenset([0.52, 'x']), (frozenset([1.26, 2]), 'y'), (1.2, (2.4, 'a'))]
@@ -594,9 +599,12 @@ class Judge(object):
 
 def srepr(v):
     try:
-        return repr(v)
+        r = repr(v)
     except Exception:
         return '<unreprable>'
+    if len(r) > 3000:
+        r = '%s ...[%d characters]... %s' % (r[:300], len(r) - 600, r[-300:])
+    return r
 
 
 def info_preserving(case):
@@ -619,7 +627,7 @@ def run_case(case, prop):
     if kk not in ('raw', 'int') and prop in ('C09', 'C10'):
         pool += UNHASHABLE
     if prop == 'C09' and case.get('tol') is not None:
-        pool += [2.04, 1.52, 0.12345, 1.005, 2.675]
+        pool += [2.04, 1.52, 0.12345, 1.005, 2.675, -0.2, -0.04, -0.0]     # (some round to negative zero)
     if kind == 'sibling':
         pool = ['elder-default-%s' % n for n in tgt.defaults] * 3 + pool     # what the other sibling defaults to
     try:
@@ -1010,7 +1018,8 @@ def check_distinct(J, tgt, f, kg, c1, c2, slot, typed_leg):
             J.bad('C10', 'typed-calls-share-key' if typed_leg else 'distinct-calls-share-key',
                   '%s: calls %s and %s differ in %r but share key %s'
                   % (which, srepr(c1), srepr(c2), slot, srepr(x)[:150]),
-                  mech=bare_scalar_mech(tgt, case, c1, c2), pair=[enc(list(c1)), enc(list(c2))])
+                  mech=bare_scalar_mech(tgt, case, c1, c2),
+                  pair=[enc(list(c1)), enc(list(c2))] if len(repr(c1)) < 5000 else None)
             return
     if typed_leg:
         return
@@ -1495,9 +1504,25 @@ DIRECTED = {
 }
 
 
+def big_pairs():
+    """arguments whose printed / pickled form is longer than any block or buffer size a keymap might process it in
+    (2**16, 2**20 bytes) and which differ only at the very end, or only in the middle"""
+    out = []
+    spec = _spec(req=['a'], dfl=[['d', 2]])
+    for n in ((1 << 20) + 3, (1 << 16) + 3):
+        big = 'k' * n
+        for km in (_km('hashmap', type='md5'), _km('hashmap', type='sha256', flat=False), _km('hashmap', type='sha1', typed=True),
+                   _km('stringmap'), _km('stringmap', type='repr', flat=False), _km('picklemap', type='pickle'),
+                   _km('picklemap', type='dill', typed=True), _km('picklemap'), _km('keymap')):
+            case = {'spec': spec, 'kind': 'func', 'keymap': km, 'deco': 'lru', 'safe': False}
+            out.append((case, 'distinct', ([big + 'a'], {}), ([big + 'b'], {})))
+            out.append((case, 'distinct', ([(1, big, 2)], {'d': 3}), ([(1, big, 2)], {'d': 4})))
+    return out
+
+
 def run_directed(prop):
     out = []
-    for case, rel, c1, c2 in DIRECTED.get(prop, []):
+    for case, rel, c1, c2 in DIRECTED.get(prop, []) + (big_pairs() if prop == 'C10' else []):
         case = dict(case); case['prop'] = prop; case['seed'] = 0; case['directed'] = True
         J = Judge(case)
         tgt = Target(case['spec'], case['kind'], case.get('partial'))
